@@ -62,6 +62,11 @@ pub struct SupCase {
     pub limit: Option<u8>,
     /// load through text (parser + translator + Machine::load) instead of poking RAM
     pub via_text: bool,
+    /// the machine never gets a program size (fresh machine with poked RAM, or a first program with
+    /// `*PROGRAMSIZE NOSET`): `is_program_counter_valid` documents "if no program is loaded, the program
+    /// counter can only be zero", i.e. the limit in force is 0
+    #[serde(default)]
+    pub never_sized: bool,
     pub prog: Vec<Tm>,
     /// extra bytes placed at fixed addresses after the program was laid out
     pub patches: Vec<(u8, u8)>,
@@ -160,7 +165,9 @@ pub fn sup_strategy() -> impl Strategy<Value = SupCase> {
                 Some(l) if l % 2 == 0 => Some(((code_len as i32) + (l as i32 % 7) - 3).clamp(0, 255) as u8),
                 other => other,
             };
-            SupCase { stack, limit, via_text: via_text || limit.is_none(), prog, patches, fill, inp, max_instr: 300, stims }
+            // one case in eight runs on a machine that never got a program size
+            let never_sized = inp[0] & 7 == 5;
+            SupCase { stack, limit, via_text: via_text || (limit.is_none() && !never_sized), never_sized, prog, patches, fill, inp, max_instr: 300, stims }
         })
 }
 
@@ -184,6 +191,7 @@ fn build(c: &SupCase) -> Result<(Machine, u8), String> {
         }
         let size = ["0", "16", "32", "48", "64"][c.stack as usize];
         let psize = match c.limit {
+            _ if c.never_sized => "NOSET".to_string(),
             Some(n) => n.to_string(),
             None => "AUTO".to_string(),
         };
@@ -197,12 +205,14 @@ fn build(c: &SupCase) -> Result<(Machine, u8), String> {
         let bc = Translator::compile(&asm);
         m.load(bc);
         limit = match c.limit {
+            _ if c.never_sized => 0,
             Some(n) => n,
             None => ram.len().min(255) as u8,
         };
         // cross-check what load installed
         match m.programsize() {
-            Programsize::Size(n) if n == limit => {}
+            Programsize::Auto if c.never_sized => {}
+            Programsize::Size(n) if n == limit && !c.never_sized => {}
             other => return Err(format!("load installed program size {:?}, expected Size({})", other, limit)),
         }
         if m.stacksize() != STACKSIZES[c.stack as usize] {
@@ -220,9 +230,11 @@ fn build(c: &SupCase) -> Result<(Machine, u8), String> {
                 ram[*a as usize] = *v;
             }
         }
-        limit = c.limit.unwrap_or(image.len().min(255) as u8);
+        limit = if c.never_sized { 0 } else { c.limit.unwrap_or(image.len().min(255) as u8) };
         m.raw_mut().set_stacksize(STACKSIZES[c.stack as usize]);
-        m.raw_mut().set_programsize(Programsize::Size(limit));
+        if !c.never_sized {
+            m.raw_mut().set_programsize(Programsize::Size(limit));
+        }
         m.raw_mut().bus_mut().memory_mut().copy_from_slice(&ram);
     }
     m.set_input_fc(c.inp[0]);
@@ -520,6 +532,7 @@ fn families() -> Vec<SupCase> {
         stack,
         limit: Some(limit),
         via_text: false,
+        never_sized: false,
         prog,
         patches,
         fill,
@@ -580,6 +593,18 @@ fn families() -> Vec<SupCase> {
             v.push(base(1, limit, vec![Tm::Jr(0, target.wrapping_sub(2))], Fill::Nops, vec![(target, 0x01)]));
             // JMP target = MOV PC, #target
             v.push(base(1, limit, vec![Tm::Two(0x10, 2, 3, target, 0, 3, 0)], Fill::Nops, vec![(target, 0x01)]));
+        }
+    }
+    // a machine that never got a program size (fresh + poked RAM, or NOSET as the first program): every
+    // first byte, both routes, NOP and zero fill
+    for via_text in [false, true] {
+        for first in 0..=255u8 {
+            for fill in [Fill::Nops, Fill::Zero] {
+                let mut c = base(1, 0, vec![Tm::Raw(first), Tm::Raw(0x10), Tm::Nop(0), Tm::Stop], fill, vec![]);
+                c.never_sized = true;
+                c.via_text = via_text;
+                v.push(c);
+            }
         }
     }
     v
